@@ -40,10 +40,14 @@ type GenOpt struct {
 	Perms    []uint32
 	// NoOrderBias disables the forced order-sensitive sibling sets.
 	NoOrderBias bool
+	// Deep adds, in 1 tree of 20, a chain of nested directories whose depth
+	// lies around the sizes at which per-level stacks grow (8, 16, 32, 64;
+	// 10, 20, 40), with a few files and order-sensitive siblings on the way.
+	Deep bool
 }
 
 func DefaultOpt() GenOpt {
-	return GenOpt{MaxEntries: 24, MaxDepth: 4, MaxFanout: 6, Names: Names, Types: "fdlpcb", Xattrs: true, SecXattrs: true, Links: true, Owners: []uint32{0, 1234, 65534}, Special: true, LongNames: true, ReadOnly: true}
+	return GenOpt{MaxEntries: 24, MaxDepth: 4, MaxFanout: 6, Names: Names, Types: "fdlpcb", Xattrs: true, SecXattrs: true, Links: true, Owners: []uint32{0, 1234, 65534}, Special: true, LongNames: true, ReadOnly: true, Deep: true}
 }
 
 func (o GenOpt) has(t byte) bool { return strings.IndexByte(o.Types, t) >= 0 }
@@ -66,6 +70,9 @@ func Gen(r *core.Rand, o GenOpt) *Tree {
 	budget := r.Range(1, o.MaxEntries)
 	g := &gen{r: r, o: o, t: t, budget: budget}
 	g.dir("", 0)
+	if o.Deep && o.has(Dir) && r.P(1, 20) {
+		g.deepChain()
+	}
 	t.Sort()
 	if o.Links {
 		g.addLinks(File)
@@ -234,6 +241,32 @@ func (g *gen) dir(prefix string, depth int) {
 		g.t.Entries = append(g.t.Entries, e)
 		if e.Type == Dir {
 			g.dir(p, depth+1)
+		}
+	}
+}
+
+// deepChain adds q/..., a chain of directories of boundary depth.
+func (g *gen) deepChain() {
+	r := g.r
+	depth := core.Pick(r, []int{7, 8, 9, 10, 11, 12, 15, 16, 17, 19, 20, 21, 31, 32, 33, 39, 40, 41, 63, 64, 65})
+	p := "q"
+	for l := 0; l < depth; l++ {
+		if l > 0 {
+			p += "/" + core.Pick(r, []string{"a", "b", "d"})
+		}
+		e := Entry{Path: p, Type: Dir}
+		g.meta(&e)
+		g.t.Entries = append(g.t.Entries, e)
+		if r.P(1, 4) || l == depth-1 {
+			// a file (and sometimes a sibling sorting between "a" and "a/x")
+			f := Entry{Path: p + "/f", Type: File, Data: r.Bytes(r.Intn(300))}
+			g.meta(&f)
+			g.t.Entries = append(g.t.Entries, f)
+			if r.P(1, 3) && g.o.has(Symlink) {
+				sl := Entry{Path: p + "/a-b", Type: Symlink, Target: "f"}
+				g.meta(&sl)
+				g.t.Entries = append(g.t.Entries, sl)
+			}
 		}
 	}
 }
